@@ -39,7 +39,20 @@ def constructor_call(model: Model, module: str, t, depth=0):
     functools.partial object (whose stored keywords are overridden by the call's), or None."""
     if t[0] != "call" or depth > 3:
         return None
-    f, args, kwargs = t[1], t[2], dict(t[3])
+    f, args = t[1], t[2]
+    kwargs = {}
+    for kw, vt in t[3]:
+        if kw is None:
+            # **MAPPING: a dict display or a module-level constant dict of keyword -> literal
+            try:
+                d = Folder(model).fold(vt)
+            except CannotFold:
+                raise AnalysisError(f"{module}: keyword mapping {show(vt)[:50]} of a quoter constructor cannot be folded")
+            if not isinstance(d, dict) or not all(isinstance(k, str) for k in d):
+                raise AnalysisError(f"{module}: `**{show(vt)[:40]}` in a quoter constructor is not a keyword mapping")
+            kwargs.update({k: ("const", v) for k, v in d.items()})
+        else:
+            kwargs[kw] = vt
 
     def through_partial(base):
         # partial(Class, **kw)(**kw2)
